@@ -18,6 +18,7 @@ def main():
     ap.add_argument('--prop', required=True)
     ap.add_argument('--tier', default=os.environ.get('VERIF_TIER', 'quick'), choices=['quick', 'thorough'])
     ap.add_argument('--only', default=None, help='regex: run only harnesses whose name matches (debugging)')
+    ap.add_argument('--kernel', default=None, help='regex: run only kernels whose name matches (debugging)')
     ap.add_argument('--list', action='store_true')
     a = ap.parse_args()
     try:
@@ -26,6 +27,9 @@ def main():
         seed = 0
     mod = importlib.import_module('props.' + a.prop.lower())
     kernels = mod.build(a.tier, seed)
+    if a.kernel:
+        import re
+        kernels = [k for k in kernels if re.search(a.kernel, k.name)]
     if a.only:
         import re
         for k in kernels:
